@@ -17,7 +17,7 @@ func init() {
 			"re-initialisation is taken from the pinned TestK2PPij (Pij built first, InitModel called again for every kappa): a model object is a container of parameters that InitModel replaces; a Pij object whose model was re-initialised is only required to follow the new parameters after SetLength to another length (model.go recomputes only when the length changes)",
 			"absence of violations is established on the explored parameter vectors and branch lengths only; tolerance 1e-8 absolute for every clause",
 		},
-		LevelText: "Generated-input search against a reference model: ~60 000 (quick) to ~3.5 million (thorough) parameter vectors x 4 branch lengths (a sixth of them as histories of one model object initialised three times), the transition matrices compared entry by entry with an independent matrix exponential of the textbook rate matrix and checked for the Markov, semigroup and reversibility laws; the corners of the parameter domain are enumerated. Shows absence of violations on what was explored.",
+		LevelText: "Generated-input search against a reference model: ~60 000 (quick) to ~3.2 million (thorough) parameter vectors x 4 branch lengths (a sixth of them as histories of one model object initialised three times), the transition matrices compared entry by entry with an independent matrix exponential of the textbook rate matrix and checked for the Markov, semigroup and reversibility laws; the corners of the parameter domain are enumerated. Shows absence of violations on what was explored.",
 		LevelNote: "trusts the harness's rate matrices and its Taylor exponential (self-checked: rows of exp(Qt) sum to 1 within 1e-10); protein exchangeabilities are taken from goalign's exported tables",
 		Technique: "property-based testing (rapid): independent reference model (textbook Q, scaling-and-squaring exponential) + algebraic laws; bounded enumeration of the domain corners",
 		DesignRef: "DESIGN.md section 5, C18",
@@ -25,7 +25,7 @@ func init() {
 			{Name: "nucleotide", Test: "^TestNucleotide$", Quick: 40000, Thorough: 150000, Shards: 16},
 			{Name: "protein", Test: "^TestProtein$", Quick: 5000, Thorough: 20000, Shards: 16},
 			{Name: "corners", Test: "^TestCorners$", Quick: 1, Thorough: 1},
-			{Name: "reinit", Test: "^TestReinit$", Quick: 8000, Thorough: 100000, Shards: 8},
+			{Name: "reinit", Test: "^TestReinit$", Quick: 8000, Thorough: 60000, Shards: 8},
 			{Name: "reinit-known", Test: "^TestKnown", Quick: 1, Thorough: 1},
 		},
 	})
